@@ -36,7 +36,7 @@ def dyn_cases(ctx, n):
         out.append((prog, bursty(ctx.rng, th, lo=60, hi=500, flush=ctx.rng.choice([0.0, 0.05, 0.3]), means=(1, 3, 10, 30, 60))))
     return out
 
-def run_dyn(ctx, name, defs, n, driver=None):
+def run_dyn(ctx, name, defs, n, driver=None, projector=None, model='GpMbDynExec (mb model with dynamic registry)'):
     impl = G.build(ctx, name, ['-DDYNREG'] + defs)
     if not impl: return
     cases = dyn_cases(ctx, n)
@@ -60,11 +60,11 @@ def run_dyn(ctx, name, defs, n, driver=None):
         from props import C01
         def project_for(prog):
             init = [str(i) for i, tp in enumerate(prog.split('/')) if not tp.startswith('-')]
-            return lambda raw, nth: G.project_mb(raw, nth, dyn_initial=init)
+            return lambda raw, nth: (projector or G.project_mb)(raw, nth, dyn_initial=init)
         by_prog = {}
         for (p, sch), (rc, raw) in zip(cases, rs): by_prog.setdefault(p, []).append(((p, sch), raw))
         for p, lst in by_prog.items():
-            C01.refine(ctx, driver, [c for c, _ in lst], [r for _, r in lst], 'GpMbDynExec (mb model with dynamic registry) accepts the trace of src/urcu.c (%s)' % name, project_for(p))
+            C01.refine(ctx, driver, [c for c, _ in lst], [r for _, r in lst], '%s accepts the trace of src/urcu.c (%s)' % (model, name), project_for(p))
 
 BPPROGS = ['(r)/(q)(r)(q)(r)/SSS', '(r)(q)/(r)/(q)(r)(q)/SS', '(q)/(r)(r)/S/S(q)', '(r)/(q)/(r)/(q)/SSS']      # bp: a thread registers on first use and leaves when its program ends
 def run_bp(ctx, n):
@@ -126,7 +126,8 @@ def run(ctx):
     ctx.cov['source_hash'] = source_hash(FILES)
     prove(ctx)
     n = 400 if ctx.quick() else 5000
-    run_dyn(ctx, 'scen_gp_dyn_memb', [], n)
+    membdriver = build_model_driver(ctx, 'gpdyn', 'ExtractGpDyn.v', 'gpdyn_driver.ml')
+    run_dyn(ctx, 'scen_gp_dyn_memb', [], n, membdriver, G.project_memb, 'GpDynExec (memb model with dynamic registry)')
     dyndriver = build_model_driver(ctx, 'gpmbdyn', 'ExtractGpMbDyn.v', 'gpmbdyn_driver.ml')
     run_dyn(ctx, 'scen_gp_dyn_mb', ['-DFLAVOR_MB'], n // 2, dyndriver)
     run_bp(ctx, n // 2)
